@@ -1,4 +1,5 @@
 import CsVerif.Model.C01
+import CsVerif.Model.C01Gen
 /-! Line-protocol driver for the C01 model.
 
   ext    <b|F|f> <B> <allkeys T|F> <keys> <data> <expect>     → ok <xorkey> <T|F> <len>.<ck> <n> <setting>… [guard <key> <bco> <gco> <checksum>] | exc <E>
@@ -14,6 +15,20 @@ import CsVerif.Model.C01
   left   <b|f> <B> <keys> <data>                              → the residual key order as hex, or exc
 
   <keys>: `none`, or `K` followed by comma-separated hex keys (`-` = the empty bytes object), `K` alone = `[]`.
+
+  TRANSLATED definitions (Gen/PyExtract.lean, first-yield forms; `relevant: False`):
+  g-ext   <b|F<pos>|f> <B> <allkeys T|F> <keys> <data>         → ok <xorkey> <T|F> <len>.<ck> <n> [guard <key> <bco> <gco> <checksum>] | exc <E>
+         `BeaconConfig.from_file` through the translated definition (`C01Gen.fromFileG`: detector, key order, Guardrails scan supplied
+         by the model, `BeaconConfig(config_block)` by the translated constructor, PE artifacts stubbed)
+  g-first <b|F<pos>|f> <B> <allkeys T|F> <keys> <data>         → ok <xorkey>:<T|F>:<len>.<ck> | none | exc <E>
+         `next(iter_beacon_config_blocks(fobj, xor_keys, all_xor_keys=…), None)` through the translated definition, the detector and
+         the residual key order supplied by the model (`C01Gen.blocksFirstG`)
+  g-find  <b|F<pos>|f> <B> <view T|F> <key> <data>             → ok <len>.<ck> <tell> | none | noview | exc <E>
+         `next(find_beacon_config_bytes(fh, key), None)` and `fh.tell()` afterwards, `fh` = the file itself or (`view = T`) the
+         XorEncodedFile view `XorEncodedFile.from_file` returns for it (`noview`: ValueError)
+  g-left  <b|f> <B> <keys> <data>                              → the residual key order as hex, through the statements TRANSLATED from the
+         source (`C01Gen.leftKeysG`: make_byte_list, the 4-gram Counter loop, most_common, p8, the sort by `.index`)
+  pyu hex <bytes> / pyu hexn <kind>                            → `x.hex()` (Model/PyU_T01.lean `t01Hex`)
 -/
 namespace C01
 open Proto
@@ -88,7 +103,102 @@ def showBlocks (b : Blocks) : String :=
   " ".intercalate ([toString b.1.length] ++ b.1.map showYield ++
     [match b.2 with | none => "end" | some e => "exc " ++ e.name])
 
+/-- `none` stays `None`; `K…` is a list -/
+def keysOptTok (s : String) : Option (Option (List Bytes)) :=
+  if s == "none" then some none else (keysTok s).map some
+
+open PyU (V) in
+/-- `ret0` of the translated `iter_beacon_config_blocks__first`: `None` or `((config_block, {"xorkey": k, "xorencoded": b}),)` -/
+def showFirstV : V → String
+  | .tuple [.none, _] => "none"
+  | .tuple [.tuple [.tuple [.bytes blk, .dict _ [.bytes k, .bool e]]], _] => s!"ok {showBytes k}:{showBool e}:{showBlk blk}"
+  | _ => "exc BadValue"
+
+open PyU (V) in
+/-- `tell()` of a file-like object -/
+def tellV (v : V) : String :=
+  match PyU.t01Tell v with
+  | .ok (.int p, _) => toString p
+  | _ => "?"
+
+open PyU (V) in
+def showFindV : Option V → String
+  | none => "noview"
+  | some (.tuple [.none, f]) => s!"none {tellV f}"
+  | some (.tuple [.tuple [.bytes blk], f]) => s!"ok {showBlk blk} {tellV f}"
+  | some _ => "exc BadValue"
+
+open PyU (V) in
+/-- the `BeaconConfig` object the translated `from_file` returns: `xorkey`, `xorencoded`, `config_block`, the number of settings and
+the Guardrails record -/
+def showCfgV : V → String
+  | .tuple [.inst _ (.bytes blk :: .tuple ss :: key :: .bool e :: _ :: _ :: _ :: gr :: _), _] =>
+    let k := match key with | .bytes k => showBytes k | _ => "none"
+    let g := match gr with
+      | .inst _ [.int bco, .int gco, _, _, _, _, _, .int ck, pk, _, _] =>
+        s!" guard {match pk with | .bytes b => showBytes b | _ => "none"} {bco} {gco} {ck}"
+      | _ => ""
+    s!"ok {k} {showBool e} {showBlk blk} {ss.length}{g}"
+  | _ => "exc BadValue"
+
 def step : List String → String
+  | ["g-ext", k, b, ak, ks, d] =>
+    match kindTok k, natTok b, boolTok ak, keysOptTok ks, bytesTok d with
+    | some k, some b, some ak, some ks, some d =>
+      if b = 0 then "bad-op"
+      else
+        match C01Gen.fromFileG b { data := d, pos := k.2, kind := k.1 } ks ak with
+        | .ok v => showCfgV v
+        | .error e => "exc " ++ e.name
+    | _, _, _, _, _ => "bad-op"
+  | ["g-left", k, b, ks, d] =>
+    match kindTok k, natTok b, keysTok ks, bytesTok d with
+    | some k, some b, some ks, some d =>
+      if b = 0 then "bad-op"
+      else
+        match C01Gen.leftKeysG b { data := d, pos := k.2, kind := k.1 } ks with
+        | .ok v =>
+          match C01Gen.decKeys v with
+          | some l => showBytes l.flatten
+          | none => "exc BadValue"
+        | .error e => "exc " ++ e.name
+    | _, _, _, _ => "bad-op"
+  | ["g-first", k, b, ak, ks, d] =>
+    match kindTok k, natTok b, boolTok ak, keysOptTok ks, bytesTok d with
+    | some k, some b, some ak, some ks, some d =>
+      if b = 0 then "bad-op"
+      else
+        match C01Gen.blocksFirstG b { data := d, pos := k.2, kind := k.1 } ks ak with
+        | .ok v => showFirstV v
+        | .error e => "exc " ++ e.name
+    | _, _, _, _, _ => "bad-op"
+  | ["pyu", "hex", d] =>
+    match bytesTok d with
+    | some d =>
+      match PyU.t01Hex (.bytes d) with
+      | .ok (.str t) => "ok " ++ String.ofList (t.map Char.ofNat)
+      | .ok _ => "exc BadValue"
+      | .error e => "exc " ++ e.name
+    | none => "bad-op"
+  | ["pyu", "hexn", kind] =>
+    let v : Option PyU.V := match kind with
+      | "none" => some .none | "int" => some (.int 5) | "str" => some (PyU.lit "ab") | "list" => some (.list [.int 1]) | "bool" => some (.bool true)
+      | _ => none
+    match v with
+    | some v =>
+      match PyU.t01Hex v with
+      | .ok _ => "ok ?"
+      | .error e => "exc " ++ e.name
+    | none => "bad-op"
+  | ["g-find", k, b, vw, key, d] =>
+    match kindTok k, natTok b, boolTok vw, keyTok key, bytesTok d with
+    | some k, some b, some vw, some key, some d =>
+      if b = 0 then "bad-op"
+      else
+        match C01Gen.findFirstG b { data := d, pos := k.2, kind := k.1 } key vw with
+        | .ok v => showFindV v
+        | .error e => "exc " ++ e.name
+    | _, _, _, _, _ => "bad-op"
   | ["ext", k, b, ak, ks, d, _expect] =>
     match kindTok k, natTok b, boolTok ak, keysTok ks, bytesTok d with
     | some k, some b, some ak, some ks, some d =>
